@@ -264,6 +264,7 @@ var c20Docs = []string{
 	`{"a":{"b":[{"c":1},{"c":2}]}}`,
 	`[[0,1],[2,3]]`, `{}`, `[]`, `1`, `"s"`, `null`,
 	`{"a":1,"a":2}`,
+	`[0,10,20,30,40,50,60,70,80,90,100,110,120]`, `{"a":[0,1,2,3,4,5,6,7,8,9,10,11,12]}`,
 }
 
 func extractObs(p *gojson.Path, doc []byte) string {
@@ -331,7 +332,9 @@ func runC20(o *Out) {
 	// longer hand-written paths
 	for _, s := range []string{"$.a.b", "$.b.c[1].a", "$.b.c[*]", "$..a", "$.b..a", "$['a']", "$['b']['a']", "$.\"a\"", "$.b.\"a\"", "$.1[1][0]", "$[1].a.a",
 		"$.a[-1]", "$.a[+1]", "$.a[01]", "$[*][0]", "$[*].a", "$.d.a.b.a", "$['a'", "$.x['a'", "$['a']['b'", "$['a'x", "$[9223372036854775807]", "$[9223372036854775808]",
-		"$.a.", "$.a[", "$.a[*", "$.a[*]x", "$..", "$...a", "$..[0]", "$.a\"b\"", "$.\"a.b\".c", "$['a.b'].c", "$.é"} {
+		"$.a.", "$.a[", "$.a[*", "$.a[*]x", "$..", "$...a", "$..[0]", "$.a\"b\"", "$.\"a.b\".c", "$['a.b'].c", "$.é",
+		// index spellings: leading zeros are decimal, nothing but digits is an index
+		"$[010]", "$[08]", "$[09]", "$[0011]", "$.a[007]", "$[012]", "$[0x1]", "$[0b1]", "$[0o7]", "$[1_0]", "$[1e1]", "$[ 1]", "$[1 ]", "$[00]", "$[10]", "$[11]", "$[12]"} {
 		obs := c20BuildObs(s)
 		o.emit("A", "c20.build", [][]byte{[]byte(s)}, obs, nil, false)
 		if obs[0] == 'O' {
